@@ -49,17 +49,38 @@ def hooks_in_repo():
     return os.path.exists(os.path.join(REPO, 'cmd', 'ow-sim', 'verif_trace_on.go'))
 
 
-def build_owsim(race=False):
+def private_sources():
+    """$C07_SRC_OVERLAY=<dir>: a directory laid out like /repo whose files REPLACE the files of /repo in this
+    build only (go build -overlay), e.g. <dir>/cmd/ow-sim/main.go.  Used to try a change of cmd/ow-sim without
+    touching /repo; the binary then gets a private name."""
+    d = os.environ.get('C07_SRC_OVERLAY')
+    res = {}
+    if d:
+        d = os.path.abspath(d)
+        for root, _, files in os.walk(d):
+            for f in files:
+                if f.endswith('.go'):
+                    full = os.path.join(root, f)
+                    res[os.path.join(REPO, os.path.relpath(full, d))] = full
+    return res
+
+
+def build_owsim(race=False, plain=False):
     """-> (path of the binary, note).  Raises BuildError."""
     os.makedirs(os.path.join(OUT, 'C07'), exist_ok=True)
-    out = os.path.join(HARNESS, 'bin', 'ow-sim-verif' + ('-race' if race else ''))
-    cmd = ['go', 'build', '-tags', 'verif'] + (['-race'] if race else [])
+    priv = private_sources()
+    # plain: built WITHOUT the verif tag, i.e. verifTrace is the empty stub - the program as shipped (no trace, and no
+    # serialisation of the goroutines on the trace mutex)
+    out = os.path.join(HARNESS, 'bin', ('ow-sim-plain' if plain else 'ow-sim-verif') +
+                       ('-private%d' % os.getpid() if priv else '') + ('-race' if race else ''))
+    cmd = ['go', 'build'] + ([] if plain else ['-tags', 'verif']) + (['-race'] if race else [])
     note = 'hooks from /repo'
-    src = open(os.path.join(REPO, 'cmd', 'ow-sim', 'main.go')).read()
+    main_path = os.path.join(REPO, 'cmd', 'ow-sim', 'main.go')
+    src = open(priv.get(main_path, main_path)).read()
     text, missing = patched_main(src)
-    ov = {}
+    ov = dict(priv)
     if text != src:
-        pm = os.path.join(OUT, 'C07', 'main_patched.go')
+        pm = os.path.join(OUT, 'C07', 'main_patched%s%s.go' % ('-race' if race else '', '-plain' if plain else ''))
         with open(pm, 'w') as f:
             f.write(text)
         ov[os.path.join(REPO, 'cmd', 'ow-sim', 'main.go')] = pm
@@ -69,8 +90,10 @@ def build_owsim(race=False):
         ov[os.path.join(REPO, 'cmd', 'ow-sim', 'verif_trace_on.go')] = os.path.join(HOOKS, 'verif_trace_on.go')
         ov[os.path.join(REPO, 'cmd', 'ow-sim', 'verif_trace_off.go')] = os.path.join(HOOKS, 'verif_trace_off.go')
         note = 'hooks supplied by -overlay from /verif/hooks (not yet in /repo)'
+    if priv:
+        note += '; PRIVATE sources from %s: %s' % (os.environ.get('C07_SRC_OVERLAY'), sorted(os.path.relpath(k, REPO) for k in priv))
     if ov:
-        ovp = os.path.join(OUT, 'C07', 'overlay.json')
+        ovp = os.path.join(OUT, 'C07', 'overlay%s%s.json' % ('-race' if race else '', '-plain' if plain else ''))
         with open(ovp, 'w') as f:
             json.dump({'Replace': ov}, f)
         cmd += ['-overlay', ovp]
